@@ -9,7 +9,8 @@ CHECKS = {
                 technique="exhaustive enumeration of the (Z x macro) grid of the real library against an independent data-file parse",
                 text="Complete enumeration of every (Z, macro) cell in and around the legal range for all 11 scalar accessors in both data "
                      "configurations, compared with an independent parse of the data files through the C preprocessor's macro values; "
-                     "the space is finite and is covered completely, so this is as strong as the property's quantifier.",
+                     "the space is finite and is covered completely, so this is as strong as the property's quantifier. Every grid is executed three times in the "
+                     "same processes (with an error slot, without, with one again): value and error status must repeat.",
                 note="Trusts the Python data-file readers, gcc's evaluation of the header macros, and the '%.10E' precision model; "
                      "configuration K depends on tools/kissel_regen.py (bound by the repo's Kissel tests)."),
     "C02": dict(level="exploration", engine="ENUM", ref="4/C02",
@@ -27,21 +28,23 @@ CHECKS = {
                      "(empty slot, no slot, pre-filled slot); the oracle is the error/value contract itself, so no reference values are needed. "
                      "1.5e8 (quick) calls per run; crashes are contained and bisected to the failing tuple. Writes to stdout or stderr are captured per call (a "
                      "diagnostic on a standard stream, e.g. the complaint about an error stored over an existing one, is a violation); the parser is also given "
-                     "strings with two independent causes of rejection and decimal subscripts across 1e-25..1e22.",
+                     "strings with two independent causes of rejection and decimal subscripts across 1e-25..1e22; constructors are also called on user arrays in every storage "
+                     "state; the energy alphabet contains every edge as the build stores it and its two neighbouring doubles.",
                 note="Continuous arguments are represented by table ends, edges +-eps, specials and angle grids, not covered; NaN/Inf arguments and "
                      "allocation failure are outside the property; MAY_VANISH functions are exempt from the 'never 0' clause (listed in checks/c03.py)."),
     "C07": dict(level="exploration", engine="ENUM", ref="4/C07",
                 technique="bounded-exhaustive grammar and mutation enumeration of the real parser against an exact-arithmetic reference parser",
                 text="All formulas up to a unit bound over prefix-colliding alphabets (nesting <= 3), all symbols and ordered pairs, all permutations of "
                      "top-level terms, every single-byte mutation (bytes 1..255) of a valid corpus, EVERY string up to length 6 (thorough: 7) over two six-symbol "
-                     "alphabets (112k strings), all ordered pairs of fault fragments, decimal subscripts across 25 magnitudes, parsed by the real library under a real comma-decimal "
+                     "alphabets (112k strings), all ordered pairs of fault fragments, decimal subscripts across 25 magnitudes, wide formulas (1..24 distinct elements flat / grouped / group-only levels), parsed by the real library under a real comma-decimal "
                      "locale and compared with an independent recursive-descent parser in exact rationals (three-way classification accept / reject / unspecified).",
                 note="Strings outside the canonical grammar that match none of the rejection classes named in the property are UNSPECIFIED (contract only). "
                      "Formulas beyond the unit bound are represented by long repeated-unit strings only."),
     "C10": dict(level="exploration", engine="ENUM", ref="4/C10",
                 technique="exhaustive enumeration of Z x group macros against member means recomputed from the public single-line API",
                 text="Complete enumeration of Z in [-3,125] x the 13 group line macros (energies) and 4 group macros (rates) in both configurations; group "
-                     "membership is derived from macro names and the published Siegbahn aliases, member values come from the public single-line API.",
+                     "membership is derived from macro names and the published Siegbahn aliases, member values come from the public single-line API. Every group "
+                     "column is executed three times in one process: value and error status must repeat.",
                 note="Differential oracle: an error common to a member line and its group is invisible here (C01 decides members). KO/KP pseudo members: two readings accepted."),
     "C12": dict(level="exploration", engine="ENUM", ref="4/C12",
                 technique="exhaustive evaluation of the real closed-form functions on a complete (E, theta, phi) grid against mutual identities and converged quadrature",
@@ -81,13 +84,15 @@ CHECKS = {
                 text="All weighable single symbols, a covering set of binary/ternary/nested formulas, the NIST names and invalid names are driven through the 21 _CP "
                      "functions and 4 refractive-index entry points on complete energy x angle x density grids; the expected value is the left-to-right sum of "
                      "mass fraction x elemental function with the composition returned by the public parser / NIST lookup of the same build. Every compound call is "
-                     "made with and without an error slot and must return the same value.",
+                     "made with and without an error slot and must return the same value, and every batch is run a second time reversed (names descending, incl. every "
+                     "catalogue name that is a proper prefix of another) and compared bit for bit.",
                 note="Differential oracle (C07, C01, C02, C05 decide compositions and elemental values); refractive index constants derived from header macros, rel. 1e-6."),
     "C13": dict(level="exploration", engine="ENUM", ref="4/C13",
                 technique="exhaustive enumeration of crystals x Miller cube x energies x Debye/angle/flag grids against metric-tensor, Bragg and explicit structure-factor references",
                 text="All 38 built-in crystals and 20/60 generated (triclinic) cells over the complete Miller cube, energy, Debye-factor, relative-angle and flag "
                      "grids; d-spacing against the reciprocal metric tensor, inversion and 1/n scaling, volumes, Bragg's law or an error, and the structure factor "
-                     "against the explicit sum over atoms with the library's own atomic factors, additivity, Friedel's law and the forward reflection.",
+                     "against the explicit sum over atoms with the library's own atomic factors, additivity, Friedel's law and the forward reflection. For every distinct "
+                     "d the energies hc/(2d) +- 6 ulps are evaluated and classified by the exact comparison lambda <=> 2d (theta = pi/2 exists at equality).",
                 note="Atomic factors via public FF_Rayl/Fi/Fii (Atomic_Factors cross-checked on a sub-grid); generated cells stand for user crystals; tolerances 1e-9..1e-12."),
     "C20": dict(level="exploration", engine="ENUM", ref="4/C20",
                 technique="exhaustive enumeration of every constant and declaration of 7 binding interfaces against macro values produced by the C preprocessor and the lexed C prototypes",
@@ -109,12 +114,14 @@ CHECKS = {
                 text="All 107 symbols, 180 NIST compounds, 10 radionuclides and 38 crystals are addressed by name, by index (incl. out of range), by every published "
                      "index macro and through the name lists; every entry's well-formedness conditions are evaluated; for every entry three copies are fetched, one "
                      "is scribbled over, the others and a fresh fetch compared, and all are released in every order in a leak-accounting and an ASan build. The crystal "
-                     "catalogue is read again after the documented explicit insertion of crystals that sort first / in the middle / last.",
+                     "catalogue is read again after the documented explicit insertion of crystals that sort first / in the middle / last. Every catalogue name is also looked up "
+                     "in 7 variants (case, padding, truncation, extension): a lookup that succeeds must return an entry of the catalogue.",
                 note="Finite catalogues: the enumeration is complete. Macro names are bound to entry names by their alphanumeric skeleton."),
     "C04": dict(level="model_checking", engine="HIST", ref="4/C04",
                 technique="bounded-exhaustive enumeration of inputs, crystal-file line sequences and allocation histories (all release orders) on the real library under ASan/UBSan and per-call live-block accounting",
                 text="Every exported function over the C03 argument product, hostile user crystals (incl. one whose atom-array size overflows, so that the allocation "
-                     "failure path of the copy routine is reached by arguments alone, followed by dump-source / copy-again), every crystal-file line sequence up to length 4/6 (plus every byte "
+                     "failure path of the copy routine is reached by arguments alone, followed by dump-source / copy-again), by-name lookups with every catalogue name "
+                     "+- one character and every length 0..100, wide formulas (1..24 distinct elements on every kind of level), every crystal-file line sequence up to length 4/6 (plus every byte "
                      "prefix of Crystals.dat) and every operation history up to depth 3/4 over the 40-op allocating API with every release order of the live handles are "
                      "executed twice: in an ASan+UBSan build (any report is a violation) and in a build whose malloc/free seam counts blocks allocated inside the call "
                      "window that survive the release of the result and the error (leaks are attributed to the allocating library frame).",
